@@ -28,13 +28,17 @@ FUEL = 6
 # ------------------------------------------------------------------------------------------------
 
 
-def _dart(ind, acc, ty, first_generic=True, kernel="kernel.add"):
+def _dart(ind, acc, ty, first_generic=True, kernel="kernel.add", form="operation"):
+    """a dart streaming region: form = operation (unscheduled) | schedule | access_pattern -- the three subclasses of
+    dart.StreamingRegionOpBase; in the snaxc pipeline dispatch-regions sees the scheduled forms"""
     mt = f"memref<16x{ty}>"
     a, b, c = {"i64": ("%a", "%b", "%c"), "i32": ("%x", "%y", "%z"), "i8": ("%p", "%q", "%r")}[ty]
     accp = f', accelerator = "{acc}"' if acc else ""
     pre = f'{ind}    "test.op"() : () -> ()\n' if not first_generic else ""
     return (
-        f'{ind}"dart.operation"({a}, {b}, {c}) <{{patterns = [affine_map<(d0) -> (d0)>, affine_map<(d0) -> (d0)>, '
+        f'{ind}"dart.{form}"({a}, {b}, {c}) <{{' + {"operation": "", "schedule": "bounds = [16 : index], tiles = [[16 : index]], ",
+                                                  "access_pattern": "bounds = [16 : index], "}[form] +
+        f'patterns = [affine_map<(d0) -> (d0)>, affine_map<(d0) -> (d0)>, '
         f'affine_map<(d0) -> (d0)>]{accp}, operandSegmentSizes = array<i32: 2, 1>}}> ({{\n'
         f'{ind}  ^bb0(%s0 : !dart.stream<{ty}>, %s1 : !dart.stream<{ty}>, %s2 : !dart.stream<{ty}>):\n'
         f'{pre}'
@@ -71,8 +75,9 @@ def _dart_rescale(ind, acc, tin, tout):
 
 
 class Render:
-    def __init__(self):
+    def __init__(self, retval=False):
         self.n = 0
+        self.retval = retval  # the functions of the module return an i32
 
     def fresh(self, p="v"):
         self.n += 1
@@ -104,6 +109,10 @@ class Render:
             return _dart_rescale(ind, node[3], node[1], node[2])
         if k == "xadd8":
             return _dart(ind, "snax_xdma", "i8")
+        if k == "dartform":  # ["dartform", form, base]: the scheduled forms of a streaming region
+            acc, ty, fg = {"alu": ("snax_alu", "i64", True), "xadd32": ("snax_xdma", "i32", True), "xadd64": ("snax_xdma", "i64", True),
+                           "xnogen": ("snax_xdma", "i32", False)}[node[2]]
+            return _dart(ind, acc, ty, first_generic=fg, form=node[1])
         if k == "xmul32":
             return _dart(ind, "snax_xdma", "i32", kernel="kernel.mul")
         if k == "xnogen":
@@ -113,6 +122,10 @@ class Render:
         if k == "unreg":
             return _dart(ind, "snax_nonexistent", "i64")
         if k == "call":  # ["call", callee name]: a call of another function of the module (or of a declaration)
+            if self.retval and node[1] != "ext":
+                r = self.fresh()
+                vis.append((r, "i32"))
+                return f'{ind}{r} = func.call @{node[1]}({", ".join(ARG_NAMES)}) : ({", ".join(ARG_TYPES)}) -> i32'
             return f'{ind}func.call @{node[1]}({", ".join(ARG_NAMES)}) : ({", ".join(ARG_TYPES)}) -> ()'
         if k == "corecall":  # a call of snax_cluster_core_idx that is part of the program; its result may be used
             r = self.fresh()
@@ -181,7 +194,11 @@ class Render:
                 body.append(f"^bb{bi}:")
             body += self.ops(bb["ops"], "  ", [])
             t = bb["term"]
-            if t[0] == "ret":
+            if t[0] == "ret" and self.retval:
+                rv = self.fresh("rv")
+                body.append(f'  {rv} = "test.op"() : () -> i32')
+                body.append(f"  func.return {rv} : i32")
+            elif t[0] == "ret":
                 body.append("  func.return")
             elif t[0] == "br":
                 body.append(f"  cf.br ^bb{t[1]}")
@@ -193,7 +210,7 @@ class Render:
                 raise ValueError("bad term")
         vis_kw = f"{vis} " if vis else ""
         hdr = (f"func.func {vis_kw}@{name}(%a : {T64}, %b : {T64}, %c : {T64}, %x : {T32}, %y : {T32}, %z : {T32}, %p : {T8}, %q : {T8}, %r : {T8}, %t : {TT}, "
-               f"%c0 : i1, %c1 : i1, %lb : index, %ub : index, %st : index) {{\n")
+               f"%c0 : i1, %c1 : i1, %lb : index, %ub : index, %st : index) {'-> i32 ' if self.retval else ''}{{\n")
         return hdr + "\n".join(body) + "\n}\n"
 
 
@@ -217,7 +234,7 @@ def render(case):
             vis_kw = f"{fn['vis']} " if fn["vis"] else ""
             out.append(f"func.func {vis_kw}@{fn['name']}({', '.join(ARG_TYPES)}) -> ()\n")
         else:
-            out.append(Render().func(fn["blocks"], fn["name"], fn["vis"]))
+            out.append(Render(bool(case.get("retval"))).func(fn["blocks"], fn["name"], fn["vis"]))
     if case.get("predeclared"):  # the module already declares snax_cluster_core_idx (e.g. it went through the pass before)
         out.insert(0 if case["predeclared"] == "first" else len(out), "func.func private @snax_cluster_core_idx() -> i32\n")
     return "".join(out)
@@ -228,7 +245,7 @@ def render(case):
 # ------------------------------------------------------------------------------------------------
 
 LEAVES = [("copy", 20), ("gen", 15), ("alu", 5), ("xadd32", 5), ("xadd64", 2), ("xadd8", 1), ("xmul32", 2), ("xnogen", 3), ("gent", 3),
-          ("xresc", 12),
+          ("xresc", 12), ("dartform", 8),
           ("sync", 4), ("corecall", 2), ("op", 35)]
 
 
@@ -244,6 +261,8 @@ def gen_leaf(rng, mal):
         return ["op", rng.choice([0, 0, 1, 1, 2]), rng.choice([0, 0, 1, 2])]
     if k == "gent":
         return ["gent", rng.random() < 0.5]
+    if k == "dartform":
+        return ["dartform", rng.choice(["schedule", "access_pattern"]), rng.choice(["alu", "alu", "xadd32", "xadd32", "xadd64", "xnogen"])]
     if k == "xresc":
         # the two extension kernels (down i32->i8, up i8->i32) get most of the weight, the other combinations the rest
         tin, tout = rng.choice([("i32", "i8"), ("i32", "i8"), ("i8", "i32"), ("i8", "i32"), ("i32", "i32"), ("i8", "i8"),
@@ -333,6 +352,8 @@ def gen_case(rng, tier, mal=False):
         insert_call(rng, rng.choice(fn["blocks"])["ops"], "ext")
     case = {"kind": "malformed" if mal else f"mod{nf}", "funcs": funcs, "nb": rng.choice([1, 2, 2, 2, 3, 3, 4, 5]),
             "xseed": rng.getrandbits(16)}
+    if rng.random() < 0.15:
+        case["retval"] = True  # functions with a result (func.return with an operand, calls with a result)
     has_cc = '"corecall"' in __import__("json").dumps(funcs)
     if has_cc or rng.random() < 0.08:
         # a program that calls snax_cluster_core_idx must declare it; "last" is where the pass itself puts the declaration
@@ -741,6 +762,88 @@ def skeleton(f):
     return [blk(b) for b in f.body.blocks]
 
 
+def block_dominators(f):
+    """strict-or-equal dominator sets of the blocks of a function body (entry = first block; unreachable blocks are
+    dominated by everything, as in MLIR)"""
+    blocks = list(f.body.blocks)
+    if not blocks:
+        return {}
+    succ = {id(b): [id(s) for s in (b.last_op.successors if b.last_op is not None else [])] for b in blocks}
+    ids = [id(b) for b in blocks]
+    reach = set()
+    todo = [ids[0]]
+    while todo:
+        x = todo.pop()
+        if x not in reach:
+            reach.add(x)
+            todo += succ[x]
+    pred = {x: [] for x in ids}
+    for x in ids:
+        for y in succ[x]:
+            pred[y].append(x)
+    dom = {x: set(ids) for x in ids}
+    dom[ids[0]] = {ids[0]}
+    changed = True
+    while changed:
+        changed = False
+        for x in ids[1:]:
+            if x not in reach:
+                continue
+            ps = [dom[p] for p in pred[x] if p in reach]
+            new = (set.intersection(*ps) if ps else set()) | {x}
+            if new != dom[x]:
+                dom[x] = new
+                changed = True
+    return dom
+
+
+def value_dominates(v, user, dom):
+    """SSA dominance of one operand (xDSL's verifier does not check it): the definition is an earlier op of the same block,
+    or an argument of / an earlier op in an enclosing block, or lives in a function block that dominates the user's"""
+    from xdsl.ir import BlockArgument
+    if isinstance(v, BlockArgument):
+        dop, dblock = None, v.block
+    else:
+        dop = v.owner
+        dblock = dop.parent_block()
+    if dblock is None:
+        return False
+    cur = user
+    while cur is not None and cur.parent_block() is not None and cur.parent_block().parent_region() is not dblock.parent_region():
+        cur = cur.parent_op()
+    if cur is None or cur.parent_block() is None:
+        return False  # the definition sits in a region that does not enclose the use
+    ublock = cur.parent_block()
+    if ublock is dblock:
+        if dop is None:
+            return True
+        return dop is not cur and dop.is_before_in_block(cur)
+    return id(dblock) in dom.get(id(ublock), set())
+
+
+def describe_op(op, f):
+    blocks = list(f.body.blocks)
+    top = op
+    while top.parent_op() is not None and top.parent_op() is not f:
+        top = top.parent_op()
+    bi = blocks.index(top.parent_block()) if top.parent_block() in blocks else "?"
+    i = get_id(op)
+    return f"{'inserted ' if i is None else ''}{op.name}{'' if i is None else f' (op {i})'} in block {bi}"
+
+
+def dominance_violations(f):
+    """[(user op, operand index, value)] of every operand of every op in f that its definition does not dominate"""
+    dom = block_dominators(f)
+    out = []
+    for op in f.walk():
+        if op is f:
+            continue
+        for k, v in enumerate(op.operands):
+            if not value_dominates(v, op, dom):
+                out.append((op, k, v))
+    return out
+
+
 def real_rules(func_op):
     """id -> (dm, cp) by the REAL rules, for every op (with an id) inside func_op / the module"""
     from snaxc.util.dispatching_rules import dispatch_to_compute, dispatch_to_dm
@@ -885,7 +988,7 @@ class C14(Prop):
             ">= 2 blocks)")
 
     def cases(self, rng, tier):
-        n = 900 if tier == "quick" else 20000
+        n = 500 if tier == "quick" else 10000
         for i in range(n):
             yield gen_case(random.Random(rng.getrandbits(48)), tier, mal=(i % 12 == 11))
         yield from self.upstream()
@@ -941,6 +1044,7 @@ class C14(Prop):
         and all the non-matching combinations), the same kernels on another accelerator, alone and inside a loop next to a copy"""
         leaves = [["xresc", ti, to, acc] for ti in ("i8", "i32", "i64") for to in ("i8", "i32", "i64") for acc in ("snax_xdma", "snax_alu")]
         leaves += [["xadd8"], ["xadd32"], ["xadd64"], ["xmul32"], ["xnogen"], ["alu"]]
+        leaves += [["dartform", fm, b] for fm in ("schedule", "access_pattern") for b in ("alu", "xadd32", "xadd64", "xnogen")]
         for i, lf in enumerate(leaves):
             yield {"kind": "xdmak", "blocks": [{"ops": [lf], "term": ["ret"]}], "nb": 2, "xseed": 30 + i}
             yield {"kind": "xdmak", "blocks": [{"ops": [["copy"], ["for", [lf, ["op", 0, 0], lf]], ["gen"]], "term": ["ret"]}], "nb": 3,
@@ -1136,8 +1240,59 @@ class C14(Prop):
             mod.verify()
         except BaseException as e:
             return [{"what": f"output of dispatch-regions does not verify: {type(e).__name__}: {str(e)[:200]}", "finding": None}]
-        # the rules against the classes of the property
         res = []
+        # SSA dominance of every operand of the output (xDSL's verifier does not check it): a guard whose condition is not
+        # computed on every path to it, or a value that is only defined on some cores, means no core "executes exactly its ops"
+        from xdsl.ir import BlockArgument
+        for f in funcs_of(mod):
+            if not f.body.blocks:
+                continue
+            before = {(get_id(o), k) for o, k, _ in dominance_violations(find_func(orig, f.sym_name.data))}
+            for o, k, v in dominance_violations(f):
+                if get_id(o) is not None and (get_id(o), k) in before:
+                    continue  # the input was already ill-formed there
+                d = None if isinstance(v, BlockArgument) else v.owner
+                dtxt = "a block argument" if d is None else f"the result of the {describe_op(d, f)}"
+                what = (f"function @{f.sym_name.data}: operand {k} of the {describe_op(o, f)} uses {dtxt}, which does not dominate it in the "
+                        f"output of dispatch-regions (use before / without definition)")
+                escaped = (d is not None and get_id(d) is not None and cls.get(get_id(d), (False, False)) != (False, False)
+                           and get_id(o) is not None)
+                if escaped:
+                    if not any(x.get("finding") == "DC14c" for x in res):
+                        res.append({"what": "a dispatched op whose result is used after it is moved under its core guard without yielding the "
+                                            f"result: the use is left without a dominating definition ({what})", "finding": "DC14c"})
+                    continue
+                return [{"what": what, "finding": None}]
+        # no state survives from one run / one function to the next: the same input gives the same output again, and every
+        # function comes out exactly as when it is dispatched in a module of its own (the other bodies removed)
+        again = orig.clone()
+        try:
+            apply_dispatch(again, nb)
+            same = snaxrun.text(again) == snaxrun.text(mod)
+        except BaseException:
+            same = False
+        if not same:
+            return [{"what": "running dispatch-regions a second time on a fresh copy of the same module gives a different result (state "
+                             "survives from one run of the pass to the next)", "finding": None}]
+        with_body = [f.sym_name.data for f in funcs_of(orig) if f.body.blocks]
+        if len(with_body) >= 2:
+            from xdsl.dialects import func as fdial0
+            from xdsl.rewriter import Rewriter
+            for fn in with_body:
+                iso = orig.clone()
+                for g in list(funcs_of(iso)):
+                    if g.sym_name.data != fn and g.body.blocks:
+                        Rewriter.replace_op(g, fdial0.FuncOp.external(g.sym_name.data, list(g.function_type.inputs),
+                                                                      list(g.function_type.outputs)))
+                try:
+                    apply_dispatch(iso, nb)
+                    a, b = snaxrun.text(find_func(iso, fn)), snaxrun.text(find_func(mod, fn))
+                except BaseException as e:
+                    a, b = f"raised {type(e).__name__}", None
+                if a != b:
+                    return [{"what": f"function @{fn} is dispatched differently inside the module than in a module of its own (the result for one "
+                                     f"function depends on the other functions of the module)", "finding": None}]
+        # the rules against the classes of the property
         for op in mod.walk():
             i = get_id(op)
             if i is None:
